@@ -10,6 +10,7 @@ import z3
 from llparse import Module, PTR, VOID
 
 STACK_BASE = 0x7000_0000_0000
+DEBUG = bool(os.environ.get('VERIF_DEBUG'))
 
 sys.setrecursionlimit(10000)
 
@@ -63,46 +64,120 @@ class PathEnd(Exception):
         self.msg = msg
 
 
-def cvc5_solve(smt2_text, inputs, timeout_s):
-    """run the cvc5 CLI on an SMT-LIB text; returns ('unsat', None) | ('sat', [(var, int)...]) | None (no answer)"""
-    txt = smt2_text.replace('(set-info :status unknown)', '(set-logic ALL)')
-    if '(set-logic' not in txt:
-        txt = '(set-logic ALL)\n' + txt
-    names = [v.decl().name() for v in inputs]
-    # only ask for symbols that occur in the text (others are unconstrained)
-    present = [(v, n) for v, n in zip(inputs, names) if ('|%s|' % n in txt or re.search(r'\(declare-fun %s ' % re.escape(n), txt))]
-    if present:
-        txt += '\n(get-value (%s))\n' % ' '.join(n for _, n in present)
-    with tempfile.NamedTemporaryFile('w', suffix='.smt2', delete=False) as f:
-        f.write(txt)
-        path = f.name
-    try:
-        r = subprocess.run(['cvc5', '--lang', 'smt2', '--produce-models', '--solve-bv-as-int=sum',
-                            '--tlimit=%d' % int(timeout_s * 1000), path], capture_output=True, text=True,
-                           timeout=timeout_s + 10)
-        out = r.stdout
-    except subprocess.TimeoutExpired:
-        return None
-    finally:
-        os.unlink(path)
-    if '(error' in out or '(error' in r.stderr:
-        return None
-    first = out.strip().split('\n', 1)[0].strip() if out.strip() else ''
-    if first == 'unsat':
-        return ('unsat', None)
-    if first != 'sat':
-        return None
-    vals = dict(re.findall(r'\(\|?([^\s|()]+)\|?\s+(#[xb][0-9a-fA-F]+)\)', out))
-    res = []
-    for v, n in present:
-        x = vals.get(n)
-        if x is None:
+class Cvc5Proc:
+    """one cvc5 process kept alive per worker (process start-up, not solving, dominates small queries)"""
+
+    def __init__(self):
+        self.p = None
+
+    def start(self, tlimit_ms):
+        self.p = subprocess.Popen(['cvc5', '--lang', 'smt2', '--incremental', '--produce-models', '--solve-bv-as-int=sum',
+                                   '--tlimit-per=%d' % tlimit_ms], stdin=subprocess.PIPE, stdout=subprocess.PIPE,
+                                  stderr=subprocess.STDOUT, text=True, bufsize=1)
+        self.tlimit = tlimit_ms
+        self.p.stdin.write('(set-logic ALL)\n')
+
+    def kill(self):
+        if self.p is not None:
+            try:
+                self.p.kill()
+                self.p.wait()
+            except Exception:
+                pass
+            self.p = None
+
+    def readline(self, timeout_s):
+        import select
+        r, _, _ = select.select([self.p.stdout], [], [], timeout_s)
+        if not r:
             return None
-        res.append((v, int(x[2:], 16 if x[1] == 'x' else 2)))
+        return self.p.stdout.readline()
+
+    def read_sexpr(self, timeout_s):
+        buf = ''
+        depth = 0
+        started = False
+        while True:
+            line = self.readline(timeout_s)
+            if not line:
+                return None
+            buf += line
+            for ch in line:
+                if ch == '(':
+                    depth += 1
+                    started = True
+                elif ch == ')':
+                    depth -= 1
+            if started and depth <= 0:
+                return buf
+
+    def solve(self, body, names, timeout_s):
+        """returns ('unsat', None) | ('sat', {name: int}) | None"""
+        tl = int(timeout_s * 1000)
+        if self.p is None or self.p.poll() is not None or self.tlimit != tl:
+            self.kill()
+            self.start(tl)
+        try:
+            self.p.stdin.write('(push 1)\n' + body + '\n(check-sat)\n')
+            self.p.stdin.flush()
+            line = self.readline(timeout_s + 5)
+            if line is None:
+                self.kill()
+                return None
+            ans = line.strip()
+            if ans == 'unsat':
+                self.p.stdin.write('(pop 1)\n')
+                self.p.stdin.flush()
+                return ('unsat', None)
+            if ans != 'sat':
+                if DEBUG:
+                    print('CVC5-NOANSWER', ans[:300], file=sys.stderr)
+                self.kill()   # unknown / error: restart to get back to a clean state
+                return None
+            vals = {}
+            if names:
+                self.p.stdin.write('(get-value (%s))\n' % ' '.join(names))
+                self.p.stdin.flush()
+                out = self.read_sexpr(20)
+                if out is None or '(error' in out:
+                    self.kill()
+                    return None
+                vals = dict(re.findall(r'\(\|?([^\s|()]+)\|?\s+(#[xb][0-9a-fA-F]+)\)', out))
+            self.p.stdin.write('(pop 1)\n')
+            self.p.stdin.flush()
+            return ('sat', {k: int(v[2:], 16 if v[1] == 'x' else 2) for k, v in vals.items()})
+        except (BrokenPipeError, OSError):
+            self.kill()
+            return None
+
+
+_CVC5 = Cvc5Proc()
+
+
+def cvc5_solve(smt2_text, inputs, timeout_s):
+    """ask the resident cvc5 (int-blasting) about an SMT-LIB text produced by z3's printer;
+    returns ('unsat', None) | ('sat', [(var, int)...]) | None (no answer)"""
+    lines = [l for l in smt2_text.split('\n')
+             if l and not l.startswith(';') and not l.startswith('(set-info') and not l.startswith('(set-logic')
+             and l.strip() != '(check-sat)']
+    body = '\n'.join(lines)
+    names = [v.decl().name() for v in inputs]
+    present = [(v, n) for v, n in zip(inputs, names) if re.search(r'\(declare-fun \|?%s\|? ' % re.escape(n), body)]
+    res = _CVC5.solve(body, [n for _, n in present], timeout_s)
+    if res is None:
+        return None
+    if res[0] == 'unsat':
+        return res
+    vals = res[1]
+    out = []
     for v, n in zip(inputs, names):
-        if (v, n) not in present:
-            res.append((v, 0))
-    return ('sat', res)
+        if (v, n) in present:
+            if n not in vals:
+                return None
+            out.append((v, vals[n]))
+        else:
+            out.append((v, 0))
+    return ('sat', out)
 
 
 class Obj:
@@ -172,6 +247,8 @@ class State:
         self.asserts = 0
         self.expect_panic = 0
         self.notes = []
+        self.pending = []     # deferred assertion conditions (cond, id, what)
+        self.dec = ()         # decisions taken at the forks on this path (for re-execution / work splitting)
 
     def fork(self):
         s = State()
@@ -191,6 +268,8 @@ class State:
         s.asserts = self.asserts
         s.expect_panic = self.expect_panic
         s.notes = list(self.notes)
+        s.pending = list(self.pending)
+        s.dec = self.dec
         return s
 
 
@@ -214,16 +293,19 @@ class Engine:
     def reset(self, params=(), limits=None, concrete_inputs=None):
         """forget everything that belongs to one harness instance"""
         lim = {'max_paths': 20000, 'max_instr_path': 400_000_000, 'max_instr_total': 4_000_000_000, 'max_depth': 600,
-               'timeout_s': 3600, 'branch_timeout_ms': 10000, 'assert_timeout_ms': 2000, 'fallback_timeout_s': 120,
+               'timeout_s': 3600, 'branch_timeout_ms': 10000, 'assert_timeout_ms': 1000, 'fallback_timeout_s': 120,
                'max_addr_values': 256}
         if limits:
             lim.update(limits)
         self.limits = lim
         self.params = list(params)
         self.concrete_inputs = concrete_inputs
+        self.forced = ()
+        self.budget_s = None
         self.solver = z3.Solver()
         self.solver.set('timeout', lim['branch_timeout_ms'])
         self.spc = []
+        self.z3_streak = 0
         self.qhist = []
         self.nqueries = 0
         self.solver_time = 0.0
@@ -274,6 +356,8 @@ class Engine:
         self.solver_time += dt_
         self.stats['z3_time'] += dt_
         self.qhist.append(dt_)
+        if DEBUG and dt_ > 0.5:
+            print('SLOW-BRANCH %.2fs pc=%d r=%s' % (dt_, len(st.pc), r), file=sys.stderr, flush=True)
         if r == z3.unknown:
             return self.portfolio(st, extra, skip_z3=True)
         return m
@@ -285,6 +369,9 @@ class Engine:
     def portfolio(self, st, extra, skip_z3):
         lim = self.limits
         cs = list(st.pc) + ([extra] if extra is not None else [])
+        # adaptive order: when z3 keeps timing out on this instance's assertion queries, ask cvc5 first
+        if not skip_z3 and self.z3_streak >= 2:
+            skip_z3 = True
         if not skip_z3:
             self.nqueries += 1
             self.stats['z3_queries'] += 1
@@ -298,9 +385,12 @@ class Engine:
             self.stats['z3_time'] += dt_
             self.qhist.append(dt_)
             if r == z3.sat:
+                self.z3_streak = 0
                 return s.model()
             if r == z3.unsat:
+                self.z3_streak = 0
                 return None
+            self.z3_streak += 1
         # cvc5, int-blasting that keeps mod 2^k semantics
         self.nqueries += 1
         self.stats['cvc5_queries'] += 1
@@ -313,6 +403,8 @@ class Engine:
         self.solver_time += dt_
         self.stats['cvc5_time'] += dt_
         self.qhist.append(dt_)
+        if DEBUG:
+            print('CVC5 %.2fs pc=%d -> %s' % (dt_, len(st.pc), res[0] if res else None), file=sys.stderr, flush=True)
         if res is not None:
             status, vals = res
             if status == 'unsat':
@@ -1084,6 +1176,8 @@ class Engine:
         if n == 'verif_assume':
             c = boolv(args[0])
             if is_sym(c):
+                if st.pending:
+                    self.flush(st)
                 m = None
                 if st.model is not None and z3.is_true(st.model.eval(c, model_completion=True)):
                     m = st.model
@@ -1105,20 +1199,21 @@ class Engine:
             if is_sym(c):
                 c = z3.simplify(c)
             if is_sym(c) and not z3.is_true(c) and not z3.is_false(c):
-                self.stats['assert_queries'] += 1
-                m = self.check_oneshot(st, z3.Not(c))
-                if m is not None:
+                what = 'assertion id=%s in %s' % (aid, fr.func.dem)
+                falsified = False
+                if st.model is not None:
+                    falsified = z3.is_false(st.model.eval(c, model_completion=True))
+                if falsified:
+                    # the model of this path already violates the assertion: no query needed
                     site[2] += 1
-                    self.report_violation(st, m, 'assert', aid, 'assertion id=%s in %s' % (aid, fr.func.dem))
-                    # continue on the passing side
-                    m2 = self.check_oneshot(st, c)
+                    self.report_violation(st, st.model, 'assert', aid, what)
+                    m2 = self.check(st, c)
                     if m2 is None:
                         raise PathEnd('assert-fail')
                     st.pc.append(c)
                     st.model = m2
                 else:
-                    site[1] += 1
-                    self.stats['assert_unsat'] += 1
+                    st.pending.append((c, aid, what))
             else:
                 if is_sym(c):
                     c = z3.is_true(c)
@@ -1140,6 +1235,40 @@ class Engine:
             st.notes.append((args[0], args[1] if not is_sym(args[1]) else str(args[1])))
             return None
         raise Unsupported('verif intrinsic ' + n)
+
+    def flush(self, st):
+        """decide all deferred assertions of this path with one query (repeated while violations are found)"""
+        while st.pending:
+            pend = st.pending
+            self.stats['assert_queries'] += 1
+            neg = z3.Not(z3.And(*[c for c, _, _ in pend])) if len(pend) > 1 else z3.Not(pend[0][0])
+            m = self.check_oneshot(st, neg)
+            if m is None:
+                for c, aid, what in pend:
+                    self.assert_sites[aid][1] += 1
+                self.stats['assert_unsat'] += len(pend)
+                st.pending = []
+                return
+            bad = [(c, aid, what) for c, aid, what in pend if z3.is_false(m.eval(c, model_completion=True))]
+            if not bad:
+                raise Inconclusive('model of a violated assertion batch falsifies none of its members')
+            c, aid, what = bad[0]
+            self.assert_sites[aid][2] += 1
+            self.report_violation(st, m, 'assert', aid, what)
+            # continue on the side where this assertion holds
+            m2 = self.check(st, c)
+            if m2 is None:
+                st.pending = []
+                raise PathEnd('assert-fail')
+            st.pc.append(c)
+            st.model = m2
+            st.pending = [x for x in pend if x[0] is not c]
+
+    def flush_at_end(self, st):
+        try:
+            self.flush(st)
+        except PathEnd:
+            pass
 
     def input_values(self, st, model):
         vals = []
@@ -1453,8 +1582,23 @@ class Engine:
                 if is_sym(cv):
                     cv = boolv(cv)
                     mt, mf = self.feasible_both(st, cv)
+                    if mt is not None and mf is not None and len(st.dec) < len(self.forced):
+                        # re-execution of a handed-over subtree: follow the recorded decision only
+                        side = self.forced[len(st.dec)]
+                        st.dec = st.dec + (side,)
+                        if side == 0:
+                            mf = None
+                        else:
+                            mt = None
                     if mt is not None and mf is not None:
+                        if st.pending:
+                            self.flush(st)
+                            mt, mf = self.feasible_both(st, cv)
+                            if mt is None or mf is None:
+                                raise Inconclusive('fork feasibility changed after assertion flush')
                         other = st.fork()
+                        other.dec = st.dec + (1,)
+                        st.dec = st.dec + (0,)
                         other.pc.append(z3.Not(cv))
                         other.model = mf
                         ofr = other.frames[-1]
@@ -1467,9 +1611,11 @@ class Engine:
                     elif mt is not None:
                         tgt = a
                         st.pc.append(cv)
+                        st.model = mt
                     elif mf is not None:
                         tgt = b
                         st.pc.append(z3.Not(cv))
+                        st.model = mf
                     else:
                         raise PathEnd('infeasible')
                 else:
@@ -1520,6 +1666,8 @@ class Engine:
                     val = z3.simplify(val)
                 if is_sym(val) and not z3.is_bv_value(val):
                     # fork over feasible cases
+                    if st.pending:
+                        self.flush(st)
                     n = t[1]
                     targets = []
                     rest = []
@@ -1535,8 +1683,16 @@ class Engine:
                         targets.append((cd, m, dflt))
                     if not targets:
                         raise PathEnd('infeasible')
-                    for c, m, lbl in targets[1:]:
+                    if len(targets) > 1 and len(st.dec) < len(self.forced):
+                        k = self.forced[len(st.dec)]
+                        st.dec = st.dec + (k,)
+                        targets = [targets[k]]
+                    elif len(targets) > 1:
+                        d0 = st.dec
+                        st.dec = d0 + (0,)
+                    for k, (c, m, lbl) in enumerate(targets[1:]):
                         other = st.fork()
+                        other.dec = d0 + (k + 1,)
                         other.pc.append(c); other.model = m
                         ofr = other.frames[-1]
                         ofr.prev = ofr.block; ofr.block = lbl; ofr.idx = 0
@@ -1711,11 +1867,17 @@ class Engine:
         status = 'complete'
         reason = ''
         npaths = 0
+        remaining = []
         try:
             while worklist:
                 s = worklist.pop()
                 try:
-                    self.run_state(s, worklist)
+                    try:
+                        self.run_state(s, worklist)
+                    except Panic:
+                        self.flush_at_end(s)
+                        raise
+                    self.flush_at_end(s)
                     if s.expect_panic:
                         results['ok'] += 1
                         m = s.model if s.model is not None else self.check(s)
@@ -1735,12 +1897,19 @@ class Engine:
                         self.report_violation(s, m, 'panic', 0, e.msg)
                 self.total_ins += s.nins
                 npaths = results['ok'] + results['panic'] + results['expected-panic'] + results['assert-fail']
+                if DEBUG and npaths % 50 == 0:
+                    print('PROGRESS paths=%d wl=%d ins=%d t=%.0fs solver=%.0fs' % (npaths, len(worklist), self.total_ins, time.time() - self.t_start, self.solver_time), file=sys.stderr, flush=True)
                 if npaths > lim['max_paths']:
                     raise Inconclusive('path limit %d' % lim['max_paths'])
                 if self.total_ins > lim['max_instr_total']:
                     raise Inconclusive('total instruction limit')
                 if time.time() - self.t_start > lim['timeout_s']:
                     raise Inconclusive('instance time limit %ds' % lim['timeout_s'])
+                if self.budget_s is not None and worklist and time.time() - self.t_start > self.budget_s:
+                    # hand the unexplored subtrees back to the driver (each identified by its decision string)
+                    remaining = [list(w.dec) for w in worklist]
+                    worklist = []
+                    status = 'partial'
         except Inconclusive as e:
             status, reason = 'inconclusive', str(e)
         except Unsupported as e:
@@ -1753,7 +1922,7 @@ class Engine:
             'violations': self.violations, 'assert_sites': {str(k): v for k, v in self.assert_sites.items()},
             'covers': {str(k): v for k, v in self.covers.items()}, 'functions': crate_funcs,
             'wall': round(time.time() - self.t_start, 3), 'pending': len(worklist),
-            'path_samples': self.path_samples,
+            'path_samples': self.path_samples, 'remaining': remaining,
         }
 
 
@@ -1780,6 +1949,8 @@ def run_instance(job):
         _ENG = Engine(_MOD)
     eng = _ENG
     eng.reset(job.get('params', ()), job.get('limits'), job.get('concrete_inputs'))
+    eng.forced = tuple(job.get('decisions', ()))
+    eng.budget_s = job.get('budget_s')
     try:
         res = eng.explore('@' + job['harness'])
     except Exception as e:  # engine bug: never a pass
@@ -1787,10 +1958,11 @@ def run_instance(job):
         res = {'status': 'inconclusive', 'reason': 'engine exception: %r\n%s' % (e, traceback.format_exc()[-1500:]),
                'paths': {}, 'npaths': 0, 'instructions': 0, 'forks': 0, 'queries': 0, 'solver_time': 0, 'stats': {},
                'violations': [], 'assert_sites': {}, 'covers': {}, 'functions': [], 'wall': 0, 'pending': 0,
-               'path_samples': []}
+               'path_samples': [], 'remaining': []}
     res['harness'] = job['harness']
     res['params'] = list(job.get('params', ()))
     res['label'] = job.get('label', '')
+    res['decisions'] = list(job.get('decisions', ()))
     return res
 
 
